@@ -7,11 +7,11 @@ import sys,os,glob,re,subprocess
 D=sys.argv[1]
 os.makedirs(D,exist_ok=True)
 AREAS={
- 'par2dec':"par2/decoder.go, par2/verify.go, par2/repair.go, par2/file.go, par2/packet.go (the PAR2 reader, Verify and Repair)",
- 'par2enc':"par2/encoder.go, par2/create.go, par2/*_packet.go, par2/data_file.go, par2/crc32.go, par2/string.go (the PAR2 writer and the packet codecs)",
- 'par1':"the par1 package (par1/decoder.go, par1/encoder.go, par1/volume.go, par1/file_entry.go, par1/verify.go, par1/repair.go, par1/create.go, par1/file_io.go)",
- 'field':"the packages rsec16, gf2p16 and gf2 (Go files only, not the assembly): coder, matrix code, field tables, the Go callers of the kernels",
- 'cli':"cmd/par/main.go (flag handling, exit codes, the repair-checker logic) and the defaultFileIO / memfs-independent file helpers in par1 and par2",
+ 'par2dec':"par2/decoder.go: fillShardInfos (the scan loop), the loop at the end of LoadParityData that fills the exponent-indexed parity table, newCoderAndShards, (*Decoder).Repair; par2/file.go: readFile; par2/verify.go and par2/repair.go (option defaulting, decoder set-up)",
+ 'par2enc':"par2/encoder.go: (*Encoder).Write - especially the loop that builds and writes the recovery volume files -, ComputeParityData, LoadFileData; par2/file.go: writeFile (the packet emission loops); par2/create.go: create (option defaulting, path handling); par2/data_file.go",
+ 'par1':"par1/encoder.go: (*Encoder).Write (index volume and the loop over parity volumes), ComputeParityData; par1/decoder.go: LoadParityData (the probing loop), buildShards, newReedSolomon, Repair, LoadFileData",
+ 'field':"rsec16/coder.go: DefaultNumGoroutines, NewCoderPAR2Vandermonde, newVandermondeParityMatrix, NewCoderCauchy, makeReconstructionMatrix, ReconstructData, GenerateParity; rsec16/vandermonde.go, rsec16/cauchy.go; rsec16/matrix.go; gf2p16/matrix.go: NewMatrixFromFunction and the row operations; gf2p16/t.go",
+ 'cli':"cmd/par/main.go (flag handling, exit codes, the repair-checker logic) and the defaultFileIO file helpers in par1 and par2",
 }
 T='''# Task: behaviour-preserving refactors of gopar
 
